@@ -524,6 +524,7 @@ def run(ctx):
     ctx.check(branches == listed and tail_raise and len(listed) >= 5, "C07.b", "bincount_methods", f"{sorted(listed)} == branches of ideal_bin_count; unknown -> ValueError",
               f"bincount_methods {sorted(listed)} != branches {sorted(branches)} (or the unknown-method raise is gone)", ibc.where)
     wiring.params_used(ctx, "C07.b", wiring.funcs_of(m, "binnings", "_bin_utils"), "binnings:options-read")
+    wiring.same_name_forwarding(ctx, "C07.b", m, wiring.funcs_of(m, "binnings", "_bin_utils"), "binnings:options-forwarded")
     check_bin_count_rules(ctx, "C07.b", m)
     check_numpy_binning_coverage(ctx, "C07.b", m)
     check_rule_factories(ctx, "C07.b", m)
